@@ -369,12 +369,15 @@ def run(tier, seed):
             ('cse', 'NoData', ['E1'], ['E1'], False, 'plain', P, ['A1'], 0, seed),
             ('range', 'NoData', ['B1'], ['B1'], False, 'iterative', P, ['A1'], 0, seed, 2),
             ('nested', 'NoData', ['B1'], ['B1'], False, 'iterative', P, ['A1'], 0, seed, 1),
+            ('aliasf', 'NoData', ['A2'], ['A2'], False, 'iterative', P, ['A1'], 0, seed, 1),
+            ('aliasf', 'NoData', ['A2'], [], True, 'iterative', P, ['A1'], 0, seed, 0),
+            ('aliasf', 'NoData', ['A2'], ['A2'], False, 'plain', P, ['A1'], 0, seed, 0),
             ('trimex', 'NoData', ['C2'], ['C2'], False, 'plain', P, ['A1'], 0, seed, 3),
             ('nested', 'NoData', ['B2'], ['B2'], False, 'plain', P, ['A1'], 0, seed, 3),
         ]
     else:
         jobs = []
-        for name in ('capture', 'nested', 'chain', 'range', 'grid', 'trimex', 'alias', 'cse'):
+        for name in ('capture', 'nested', 'chain', 'range', 'grid', 'trimex', 'alias', 'cse', 'aliasf'):
             forms = sorted(W.WORKBOOKS[name]['formulas'])
             ins = sorted(W.WORKBOOKS[name]['inputs'])[:1]
             for f in forms:
